@@ -76,7 +76,7 @@ def select_specs(tier, seed):
     """(ident, body) list of enumerated specs for this tier"""
     out = list(G.enumerate_specs(1))
     if tier == "quick":
-        out += G.sample_specs(2, 500, seed)
+        out += G.sample_specs(2, 1000, seed)
     else:
         out += [s for s in G.enumerate_specs(2) if s not in out]
         out += G.sample_specs(3, 1500, seed)
